@@ -619,8 +619,10 @@ func (tree *MutableTree) enableFastStorageAndCommit() error {
 
 	// The fast index describes the latest version and is labelled with it, so it has
 	// to be built from the latest version even if this tree has loaded an older one.
+	// The working tree may also hold uncommitted changes (DeleteVersionsFrom rebuilds the
+	// index without reloading): they must not go into the index either.
 	latest := tree.ImmutableTree
-	if latest.version > 0 && latest.version != latestVersion {
+	if latest.version > 0 && (latest.version != latestVersion || latest.root != tree.lastSaved.root) {
 		latest, err = tree.GetImmutable(latestVersion)
 		if err != nil {
 			return err
